@@ -93,8 +93,15 @@ func eofdrainCase(seed uint64, idx int) *CaseSpec {
 		st.in <- &spb.ModifyRequest{Params: &spb.SessionParameters{Redundancy: spb.SessionParameters_SINGLE_PRIMARY, Persistence: spb.SessionParameters_PRESERVE, AckType: ack}}
 		st.in <- &spb.ModifyRequest{ElectionId: id}
 		ops := []*spb.AFTOperation{}
+		// every fourth case: two operations in three name no network instance (each is answered
+		// FAILED, once, with its own id — many rejections in one request, back to back)
+		badNI := idx%4 == 2
 		for i := 1; i <= n; i++ {
-			ops = append(ops, &spb.AFTOperation{Id: uint64(i), NetworkInstance: "DEFAULT", Op: spb.AFTOperation_ADD, ElectionId: id,
+			ni := "DEFAULT"
+			if badNI && i%3 != 0 {
+				ni = ""
+			}
+			ops = append(ops, &spb.AFTOperation{Id: uint64(i), NetworkInstance: ni, Op: spb.AFTOperation_ADD, ElectionId: id,
 				Entry: &spb.AFTOperation_NextHop{NextHop: &aftpb.Afts_NextHopKey{Index: uint64(i), NextHop: &aftpb.Afts_NextHop{IpAddress: sv("10.0.0.1")}}}})
 		}
 		st.in <- &spb.ModifyRequest{Operation: ops}
@@ -119,6 +126,12 @@ func eofdrainCase(seed uint64, idx int) *CaseSpec {
 		st.mu.Unlock()
 		missing, missingFib := 0, 0
 		for i := 1; i <= n; i++ {
+			if badNI && i%3 != 0 {
+				if got[uint64(i)][spb.AFTResult_FAILED] != 1 || len(got[uint64(i)]) != 1 {
+					missing++
+				}
+				continue
+			}
 			if got[uint64(i)][spb.AFTResult_RIB_PROGRAMMED] != 1 {
 				missing++
 			}
